@@ -83,7 +83,7 @@ def gen_grid(rng):
 
 KINDS = ['random-walk', 'single-cell', 'long-crossing', 'on-grid-lines', 'meridian-run',
          'parallel-run', 'west-south', 'antimeridian', 'repeated-points', 'corners',
-         'micro-segments']
+         'micro-segments', 'over-a-pole']
 
 
 def gen_path(rng, kind, lat_g, lon_g):
@@ -174,6 +174,34 @@ def gen_path(rng, kind, lat_g, lon_g):
                     out_lo.append(g + (1 - f) * dth)
                     out_la.append(out_la[-1])
         return np.array(out_la), np.array(out_lo)
+    elif kind == 'over-a-pole':
+        # a track over the pole: it arrives along one meridian, stands exactly ON the pole
+        # (where every longitude is the same point: the turn is a zero-length segment that
+        # may span many longitude cells) and leaves along another meridian
+        # (the north pole: the south pole lies ON the lowest grid line, i.e. on the edge of
+        # the grid, which the quantifier "within the grid" leaves out)
+        sgn = 1.0
+        lo_a = math.radians(rng.uniform(-170, 170))
+        lo_b = math.radians(rng.uniform(-170, 170))
+        if abs(lo_b - lo_a) > PI - 0.05:          # keep the turn the short way round, no wrap
+            lo_b = lo_a + math.copysign(PI - 0.1, lo_b - lo_a) * 0.5
+        lats, lons = [], []
+        d = [step * rng.uniform(0.2, 1.0) for _ in range(rng.randint(1, 3))]
+        for q in range(len(d), 0, -1):
+            lats.append(sgn * (PI / 2 - sum(d[:q])))
+            lons.append(lo_a)
+        lats.append(sgn * PI / 2)
+        lons.append(lo_a)
+        for _ in range(rng.randint(0, 2)):
+            lats.append(sgn * PI / 2)             # turns on the spot
+            lons.append(lo_a + (lo_b - lo_a) * rng.random())
+        lats.append(sgn * PI / 2)
+        lons.append(lo_b)
+        d = [step * rng.uniform(0.2, 1.0) for _ in range(rng.randint(0, 3))]
+        for q in range(1, len(d) + 1):
+            lats.append(sgn * (PI / 2 - sum(d[:q])))
+            lons.append(lo_b)
+        return np.array(lats), np.array(lons)
     elif kind == 'repeated-points':
         for _ in range(n - 1):
             if rng.random() < 0.5:
